@@ -118,6 +118,21 @@ def run_annotate(case, sc):
             f, node = rets[case["seed"] % len(rets)]
             node["e"] = None
             bare_return = f["name"]
+    # wrappers whose body ends in a call of another un-annotated function: their return type is only known through
+    # that callee
+    wrappers = []
+    simple = {G.INT: lambda: G.E("int", G.INT, v=2), G.STR: lambda: G.E("str", G.STR, v="w"), G.BOOL: lambda: G.E("bool", G.BOOL, v=True)}
+    for f in list(pr["funs"]):
+        if f["ret"] != G.UNIT and not f.get("recursive") and all(isinstance(t, str) and t in simple for _, _, t in f["params"]) and len(wrappers) < 2:
+            wname = "vw_" + f["name"]
+            params = [[n, 0, t] for n, _, t in f["params"]]
+            call = G.E("call", f["ret"], f["pure"], f["total"], fn=f["name"], args=[G.E("var", t, name=n, bid=0) for n, _, t in params])
+            pr["funs"].append({"name": wname, "params": params, "ret": f["ret"], "pure": f["pure"], "total": f["total"],
+                               "body": [{"k": "let", "name": "verif_m", "bid": 0, "ann": None, "e": G.E("int", G.INT, v=1)}, {"k": "expr", "e": call}]})
+            use = G.E("call", f["ret"], f["pure"], f["total"], fn=wname, args=[simple[t]() for _, _, t in params])
+            pr["main"].append({"k": "expr", "e": G.E("call", G.UNIT, False, f["total"], fn="println", builtin=True,
+                                                    args=[G.E("call", G.STR, fn="string_repr", builtin=True, args=[use])])})
+            wrappers.append(wname)
     src, p = printer.print_program(pr, annotate=False)
     path = sc.file(src)
     base = core.run_garden(["run", path], timeout=30, cwd=sc.dir)
@@ -142,7 +157,7 @@ def run_annotate(case, sc):
         st = src.find("fun %s(" % f["name"]) + 4
         pos.append(("return", st, st + len(f["name"]), f["ret"]))
     rng = random.Random(case["seed"])
-    forced = [q for q in pos if q[0] == "return" and bare_return and src[q[1]:q[2]] == bare_return]
+    forced = [q for q in pos if q[0] == "return" and ((bare_return and src[q[1]:q[2]] == bare_return) or src[q[1]:q[2]] in wrappers)]
     if len(pos) > 8:
         pos = rng.sample(pos, 8)
     pos = forced + [q for q in pos if q not in forced]
